@@ -8,6 +8,12 @@
    the annotation of the response's dimension dicts with "subvar_alias" / "datetime_value" keys
    (Model/Shim.v shim_dim_dict): it is idempotent and no result depends on whether it was made.
 
+   The idempotence theorems of the translation itself (shim (shim t) = shim t: Proofs/ShimSlots.v
+   shim_xf_idem_full / shim_xf_fixed, replaced_elements_idem; augment_idem in Proofs/HistorySets.v)
+   are kept: they are still true of shim_xf / augment as FUNCTIONS and they are what made the former
+   in-place design work for the histories it did work for (same dict with the same dimension, same
+   CubeSet again); the purity theorems below no longer rest on them.
+
    The state of the model still carries the caller-owned objects, so that "they are the pristine
    ones after ANY history" is a theorem about the model (Proofs/HistoryProofs.v dicts_unchanged,
    Proofs/HistoryArray.v rrun_state_unchanged, Proofs/HistorySets.v a_run_state_unchanged) which
